@@ -253,6 +253,8 @@ def run(tier):
     ncont = 60 if th else 10
     for i in range(ncont):
         cname, ins = rng.choice(GRID_Q + [("lossy3b", (1, 0, 0))])
+        if i % 5 in (0, 2):        # three and four photons, two modes with the same occupation >= 2
+            cname, ins = [("lossy3", (1, 1, 1)), ("lossy3", (2, 0, 2)), ("hom2", (2, 2)), ("her3", (1, 1, 1)), ("lossy3b", (2, 1, 2))][(i // 5 + i) % 5]
         nu, purity, indist = rng.uniform(0.3, 1), rng.uniform(0.75, 1), rng.uniform(0, 1)
         if rng.random() < 0.2:
             nu = 1.0
